@@ -185,8 +185,62 @@ class SubConfig(fdl.Config):
   """A user subclass of fdl.Config."""
 
 
+class PinnedConfig(fdl.Config):
+  """A Config pinned to one callable that rebuilds itself through its constructor in
+  __unflatten__ (the pattern of config_test.test_buildable_subclass, DictConfig, ...)."""
+
+  def __init__(self, *args, **kwargs):
+    super().__init__(kinds.node, *args, **kwargs)
+
+  @classmethod
+  def __unflatten__(cls, values, metadata):
+    # exactly the pattern of the repository's test: tags are NOT carried over, so everything
+    # that goes through flatten/unflatten loses them (the subclass author's choice). deepcopy
+    # and pickle do not go through __unflatten__ and must stay faithful.
+    return cls(**metadata.arguments(values))
+
+
+def _dict_config(fn, *pos, **kw):
+  from fiddle.experimental import dict_config
+  return dict_config.DictConfig(*pos, **kw)
+
+
+def _namespace_config(fn, *pos, **kw):
+  from fiddle.experimental import namespace_config
+  return namespace_config.NamespaceConfig(*pos, **kw)
+
+
+def _pinned_config(fn, *pos, **kw):
+  return PinnedConfig(*pos, **kw)
+
+
 BTYPES = {'Config': fdl.Config, 'Partial': fdl.Partial, 'ArgFactory': fdl.ArgFactory,
-          'SubConfig': SubConfig}
+          'SubConfig': SubConfig, 'DictConfig': _dict_config, 'NamespaceConfig': _namespace_config,
+          'PinnedConfig': _pinned_config}
+
+
+def to_special_btypes(root, rng, p=0.3, pinned=False):
+  """Turns some keyword-only Config nodes into DictConfig / NamespaceConfig / PinnedConfig nodes
+  (in place); their callable follows from the type."""
+  import types
+  from fiddle._src.experimental import dict_config, namespace_config
+  n_changed = 0
+  for n in walk(root):
+    if not (isinstance(n, B) and n.btype == 'Config' and not n.pos and rng.random() < p):
+      continue
+    if not all(isinstance(k, str) for k in list(n.kw) + list(n.tags)):
+      continue
+    if n.fn is kinds.node:
+      if not pinned or n is root:
+        continue
+      n.btype = 'PinnedConfig'
+    else:
+      n.btype = rng.choice(['DictConfig', 'NamespaceConfig'])
+      n.fn = (dict_config._kwargs_to_dict if n.btype == 'DictConfig'      # pylint: disable=protected-access
+              else namespace_config._kwargs_to_namespace)                  # pylint: disable=protected-access
+      n.tags = {k: v for k, v in n.tags.items() if k in n.kw}
+    n_changed += 1
+  return n_changed
 SEQ_MAKERS = {'list': list, 'tuple': tuple, 'point': lambda it: kinds.Point(*it),
               'pair': lambda it: kinds.Pair(*it), 'tempbox': vnodes.TempBox,
               'latebox': vnodes.LateBox}
@@ -241,7 +295,7 @@ def to_direct(n, memo=None):
   else:
     pos = [to_direct(c, memo) for c in n.pos]
     kw = {k: to_direct(v, memo) for k, v in n.kw.items()}
-    if n.btype == 'Config':
+    if n.btype in ('Config', 'SubConfig', 'DictConfig', 'NamespaceConfig', 'PinnedConfig'):
       r = n.fn(*pos, **kw)
     elif n.btype == 'Partial':
       r = functools.partial(n.fn, *pos, **kw)
